@@ -49,7 +49,11 @@ def run_variant(pid, path, expect):
         if c.returncode == 0:
             return "MISSED", ""
         lines = [l for l in out.splitlines() if l.startswith("  ") and "rule " in l]
-        hit = [l for l in lines if all(e in l for e in expect)] if expect else lines
+        # every expected substring must occur in some reported line (not necessarily the same one)
+        if expect and all(any(e in l for l in lines) for e in expect):
+            hit = [l for l in lines if any(e in l for e in expect)]
+        else:
+            hit = [] if expect else lines
         if hit:
             return "CAUGHT", hit[0].strip()[:300]
         return "CAUGHT-OTHER", (lines[0].strip()[:300] if lines else out[-300:])
